@@ -63,4 +63,96 @@ def dependency_overlay(repo, out_dir):
                             "version uint8, height int32, previousWinners []string", "version, height, previousWinners"))
     rep.update(patch_grader(os.path.join(pdir, "modules", "graderStake"), out_dir, "graderStake",
                             "version uint8, height int32", "version, height"))
+    rep.update(startup_overlay(repo, out_dir))
     return rep
+
+
+# ---- the daemon's own start-up code, made callable on a harness database ------------------------
+# NewPegnetd opens the SQLite file, builds the Factom client and initialises the LXR hash table
+# (1 GiB) around the part that matters for restart properties: what a starting daemon reads from
+# its database and keeps in memory. The function below is REGENERATED FROM /repo's CURRENT
+# node/node.go on every run: NewPegnetd's body is copied into vrtStartDaemon with exactly three
+# statements exchanged - the Init() call (open file + createTables) becomes "use this *sql.DB +
+# createTables", the Factom client and grader.InitLX() are dropped. Everything else - SelectSynced,
+# CheckHardForks, whatever a change adds to the start-up path - runs as written.
+START_FALLBACK = '''package node
+
+import (
+	"context"
+	"database/sql"
+
+	"github.com/pegnet/pegnetd/node/pegnet"
+	"github.com/spf13/viper"
+)
+
+// extraction of NewPegnetd failed (%s): the restart harnesses fall back to reloading the sync
+// height only, and do not cover the class "real-start-up-code"
+const vrtStartExtracted = false
+
+func vrtStartDaemon(ctx context.Context, conf *viper.Viper, vrtDB *sql.DB) (*Pegnetd, error) {
+	n := new(Pegnetd)
+	n.Config = conf
+	n.Pegnet = &pegnet.Pegnet{DB: vrtDB}
+	if err := n.Pegnet.VrtCreateTables(); err != nil {
+		return nil, err
+	}
+	s, err := n.Pegnet.SelectSynced(ctx, vrtDB)
+	if err != nil {
+		return nil, err
+	}
+	n.Sync = s
+	return n, nil
+}
+'''
+
+
+def startup_overlay(repo, out_dir):
+    os.makedirs(out_dir, exist_ok=True)
+    q = os.path.join(out_dir, "node_zz_verif_start_gen.go")
+    target = os.path.join(repo, "node", "zz_verif_start_gen.go")
+
+    def fallback(reason):
+        open(q, "w").write(START_FALLBACK % reason)
+        return {target: q}
+    try:
+        src = open(os.path.join(repo, "node", "node.go")).read()
+    except OSError as e:
+        return fallback("node/node.go unreadable: %s" % e)
+    m = re.search(r"^func NewPegnetd\(ctx context\.Context, conf \*viper\.Viper\) \(\*Pegnetd, error\) \{\n(.*?)^\}\n", src, re.M | re.S)
+    if not m:
+        return fallback("NewPegnetd(ctx, conf) not found")
+    body = m.group(1)
+    body, n1 = re.subn(r"if err := n\.Pegnet\.Init\(\); err != nil \{\s*return nil, err\s*\}",
+                       "n.Pegnet.DB = vrtDB\n\tif err := n.Pegnet.VrtCreateTables(); err != nil {\n\t\treturn nil, err\n\t}", body)
+    if n1 != 1:
+        return fallback("the Init() call of NewPegnetd not found exactly once")
+    body = re.sub(r"^\s*n\.FactomClient = FactomClientFromConfig\(conf\)\s*$", "", body, flags=re.M)
+    body = re.sub(r"^\s*grader\.InitLX\(\)\s*$", "", body, flags=re.M)
+    if "InitLX" in body or "FactomClientFromConfig" in body or "sql.Open" in body:
+        return fallback("start-up code opens resources in a way the extraction does not know")
+    # the import block of node.go, reduced to what the copied body still uses
+    im = re.search(r"^import \((.*?)^\)", src, re.M | re.S)
+    if not im:
+        return fallback("import block not found")
+    imports = []
+    for line in im.group(1).splitlines():
+        line = line.strip()
+        if not line or line.startswith("//"):
+            continue
+        mm = re.match(r'^(?:(\w+|_)\s+)?"([^"]+)"$', line)
+        if not mm:
+            return fallback("unparsed import line %r" % line)
+        alias, path = mm.group(1), mm.group(2)
+        if alias == "_":
+            continue
+        name = alias or path.rsplit("/", 1)[-1]
+        if re.search(r"\b%s\." % re.escape(name), body) or name in ("context", "sql", "viper"):
+            imports.append(line)
+    for need in ('"context"', '"database/sql"', '"github.com/spf13/viper"'):
+        if not any(need in l for l in imports):
+            imports.append(need)
+    out = "package node\n\n// GENERATED on every run from the current node/node.go (see /verif/hooks.py)\n\nimport (\n"
+    out += "".join("\t%s\n" % l for l in imports) + ")\n\nconst vrtStartExtracted = true\n\n"
+    out += "func vrtStartDaemon(ctx context.Context, conf *viper.Viper, vrtDB *sql.DB) (*Pegnetd, error) {\n" + body + "}\n"
+    open(q, "w").write(out)
+    return {target: q}
